@@ -23,7 +23,7 @@ def op_targets(op):
 
 def scenario(tier):
     def fn(b, sym):
-        files = {"R/s.txt": 1, "R/A/a1.txt": 2, "R/A/AA/aa1.txt": 3, "R/B/b 1.txt": 4}
+        files = {"R/s.txt": 1, "R/A/a1.txt": 2, "R/A/AA/aa1.txt": 3, "R/B/b 1.txt": 4, "R/A/AA_proxy/p.mov": 5, "R/A_notes.txt": 6, "R/B.txt": 7}
         for f, c in files.items():
             b.mkfile(f, c)
         b.mkdir("R/z")
@@ -47,7 +47,8 @@ def scenario(tier):
             b.mkfile("R/A/new.txt", 44)
         elif pre == "tampered":
             b.alter(posixpath.join("R/ascmhl", b.manifest_names("R")[0]), 2)
-        cmd = sym.choose("command", READONLY + ["flatten", "create", "create-n", "create-sf", "create-dr", "create-new-root", "create-ignoring-child"])
+        cmd = sym.choose("command", READONLY + ["flatten", "create", "create-n", "create-sf", "create-sf-neighbour", "create-dr", "create-new-root",
+                                                "create-ignoring-child"])
         before = b.snapshot("")
         tag = "%s on %s tree (nested: %s)" % (cmd, pre, layout)
         b.note(tag)
@@ -87,6 +88,10 @@ def scenario(tier):
                 # a nested history below a folder excluded by a pattern is out of scope of the run
                 r = b.run("create", root="R", h=["md5"], i=["A"])
                 scope = [x for x in roots if not cm.under(x, "R/A")]
+            elif cmd == "create-sf-neighbour":
+                # a file next to a nested history whose folder name is a prefix of the neighbour's name: the nested history is out of scope
+                r = b.run("create", root="R", h=["md5"], sf=["R/A/AA_proxy/p.mov"])
+                scope = [x for x in roots if cm.under("R/A/AA_proxy/p.mov", x)]
             elif cmd == "create-sf":
                 r = b.run("create", root="R", h=["md5"], sf=["R/A/AA/aa1.txt"])
                 scope = [x for x in roots if cm.under("R/A/AA/aa1.txt", x)]
